@@ -1,25 +1,30 @@
 package main
 
-import "fmt"
+import (
+	"fmt"
+	"go/types"
+	"math/big"
+)
 
 // Stub call log: every nondeterministic stub records what it returned so that a counterexample
 // can be replayed natively with the same stub behaviour (see replay.go).
 
 type stubCall struct {
 	name string
-	kind string // "err" (returned an error), "val" (returned/stored a value), "bool"
-	val  Value
+	kind string // "err" (returned an error), "val" (returned/stored values)
+	vals []Value
+	typs []types.Type
 }
 
 // StubRec is a stub call evaluated under a model.
 type StubRec struct {
-	Name string      `json:"name"`
-	Kind string      `json:"kind"`
-	Val  interface{} `json:"val,omitempty"`
+	Name string        `json:"name"`
+	Kind string        `json:"kind"`
+	Outs []interface{} `json:"outs,omitempty"`
 }
 
-func (r *Run) logStub(name, kind string, v Value) {
-	r.stubLog = append(r.stubLog, stubCall{name, kind, v})
+func (r *Run) logStub(name, kind string, vals []Value, typs []types.Type) {
+	r.stubLog = append(r.stubLog, stubCall{name, kind, vals, typs})
 }
 
 func (r *Run) evalStubLog() []StubRec {
@@ -28,9 +33,109 @@ func (r *Run) evalStubLog() []StubRec {
 	}
 	out := make([]StubRec, 0, len(r.stubLog))
 	for _, c := range r.stubLog {
-		out = append(out, StubRec{Name: c.name, Kind: c.kind, Val: r.evalValue(c.val, 0)})
+		rec := StubRec{Name: c.name, Kind: c.kind}
+		for i, v := range c.vals {
+			// an output passed by pointer (a receiver) is recorded as the pointee: natively every
+			// output is filled through a pointer to it
+			if pt, ok := c.typs[i].Underlying().(*types.Pointer); ok {
+				if pv, ok := v.(*PtrV); ok && pv.obj != nil {
+					rec.Outs = append(rec.Outs, r.evalTyped(r.loadPath(r.force(&pv.obj.val), pv.path, lbl("eval")), pt.Elem(), 0))
+					continue
+				}
+			}
+			rec.Outs = append(rec.Outs, r.evalTyped(v, c.typs[i], 0))
+		}
+		out = append(out, rec)
 	}
 	return out
+}
+
+// evalTyped renders a symbolic value of Go type t under the current model as plain JSON-able data
+// that package zzverif can load back into a real Go value by reflection:
+//   integers: decimal string (signed per type); bool; string: {"s":hex}; []byte: {"b":hex};
+//   other slices: list; struct: {"f":{name:val}} (only materialised fields); time.Time: {"t": ns since year 1};
+//   pointer: null | {"p":val}; interface: null.
+func (r *Run) evalTyped(v Value, t types.Type, depth int) interface{} {
+	if depth > 16 {
+		return nil
+	}
+	if lz, ok := v.(*LazyV); ok {
+		if !lz.c.forced {
+			return nil
+		}
+		v = lz.c.val
+	}
+	if n, ok := t.(*types.Named); ok && n.String() == "time.Time" {
+		ns := r.sol.Value(nsOf(v))
+		if ns.Bit(TW-1) == 1 {
+			ns = new(big.Int).Sub(ns, new(big.Int).Lsh(big.NewInt(1), TW))
+		}
+		return map[string]interface{}{"t": ns.String()}
+	}
+	switch u := t.Underlying().(type) {
+	case *types.Basic:
+		switch x := v.(type) {
+		case *Term:
+			val := r.sol.Value(x)
+			if x.w == 0 {
+				return val.Sign() != 0
+			}
+			if isSigned(t) && val.Bit(x.w-1) == 1 {
+				val = new(big.Int).Sub(val, new(big.Int).Lsh(big.NewInt(1), uint(x.w)))
+			}
+			return val.String()
+		case *StrV:
+			if x.opaque != nil {
+				return map[string]interface{}{"s": ""}
+			}
+			bs := make([]byte, len(x.b))
+			for i, tm := range x.b {
+				bs[i] = byte(r.sol.Value(tm).Uint64())
+			}
+			return map[string]interface{}{"s": fmt.Sprintf("%x", bs)}
+		}
+	case *types.Slice:
+		x := v.(*SliceV)
+		if x.arr == nil {
+			return nil
+		}
+		el := elemsOf(x)
+		if b, ok := u.Elem().Underlying().(*types.Basic); ok && b.Kind() == types.Uint8 {
+			bs := make([]byte, x.len)
+			for i := 0; i < x.len; i++ {
+				bs[i] = byte(r.sol.Value(el[x.off+i].(*Term)).Uint64())
+			}
+			return map[string]interface{}{"b": fmt.Sprintf("%x", bs)}
+		}
+		out := make([]interface{}, 0, x.len)
+		for i := 0; i < x.len; i++ {
+			out = append(out, r.evalTyped(el[x.off+i], u.Elem(), depth+1))
+		}
+		return out
+	case *types.Struct:
+		x := v.(StructV)
+		f := map[string]interface{}{}
+		for i := range x {
+			if e := r.evalTyped(x[i], u.Field(i).Type(), depth+1); e != nil {
+				f[u.Field(i).Name()] = e
+			}
+		}
+		return map[string]interface{}{"f": f}
+	case *types.Array:
+		x := v.(ArrayV)
+		out := make([]interface{}, len(x))
+		for i := range x {
+			out[i] = r.evalTyped(x[i], u.Elem(), depth+1)
+		}
+		return out
+	case *types.Pointer:
+		x := v.(*PtrV)
+		if x.obj == nil {
+			return nil
+		}
+		return map[string]interface{}{"p": r.evalTyped(r.loadPath(r.force(&x.obj.val), x.path, lbl("eval")), u.Elem(), depth+1)}
+	}
+	return nil
 }
 
 // evalValue renders a symbolic value under the current model as plain data (JSON-able):
